@@ -92,6 +92,11 @@ class Run:
         os.makedirs(os.path.join(VERIF, 'replays', self.prop), exist_ok=True)
         safe = re.sub(r'[^A-Za-z0-9_.-]+', '_', name)[:80]
         path = os.path.join(VERIF, 'replays', self.prop, safe + '.json')
+        used = {p for _, p, _ in self.violations}
+        k = 2
+        while path in used:   # several violations of one obligation in one run: one replay file each
+            path = os.path.join(VERIF, 'replays', self.prop, f'{safe}.{k}.json')
+            k += 1
         with open(path, 'w') as f:
             json.dump(dict(property=self.prop, obligation=name, key=key, what=what, replay=replay_obj), f,
                       indent=1, default=repr)
